@@ -95,6 +95,41 @@ def _is_envelope_ctor(t, fi, repo):
     return False
 
 
+_SUMMARIES = {}
+
+
+def _summary(ctx, mname, depth=0):
+    """The refreshers a method of the envelope classes runs on self, unconditionally and in order (empty for the refreshers and the
+    sinks themselves, for methods that run none, and for methods that run them only on some paths - those are not summarised)."""
+    if mname in ("update_severable_digests", "update_digest", "to_cbor", "get_manifest_digest", "get_digest", "from_obj", "from_cbor", "to_obj") or depth > 2:
+        return []
+    key = (id(ctx.repo), mname)
+    if key in _SUMMARIES:
+        return _SUMMARIES[key]
+    _SUMMARIES[key] = []
+    cands = [f for f in ctx.repo.mod(ENVM).functions.values() if f.name == mname and f.cls is not None]
+    if len(cands) != 1:
+        return []
+    outs = [o for o in Evaluator(ctx.repo, inline_depth=0).outcomes(cands[0]) if o.kind == "return"]
+    if len(outs) != 1:
+        return []
+    steps = []
+    for e in outs[0].effects:   # top level only: unconditional
+        c_ = e.args[0] if isinstance(e, App) and e.op == "eff:call" and isinstance(e.args[0], App) else None
+        m2 = None
+        if c_ is not None and c_.op.startswith("meth:") and c_.args and c_.args[0] == SELF:
+            m2 = c_.op[5:]
+        elif c_ is not None and c_.op == "call" and len(c_.args) >= 2 and isinstance(c_.args[0], Ref) and c_.args[0].kind == "func" and c_.args[1] == SELF:
+            m2 = c_.args[0].obj.name
+        if m2 is not None:
+            if m2 in ("update_severable_digests", "update_digest"):
+                steps.append(m2)
+            else:
+                steps += _summary(ctx, m2, depth + 1)
+    _SUMMARIES[key] = steps
+    return steps
+
+
 def typestate(ctx):
     R = ctx.report
     repo = ctx.repo
@@ -149,6 +184,21 @@ def typestate(ctx):
                     r = c.args[0]
                     m = c.op[5:]
                     st = state.get(r, "built")
+                    steps = _summary(ctx, m)
+                    if steps:
+                        # a method of the envelope classes that itself runs the refreshers on self, in some order: its effect on
+                        # the object is that sequence (a helper such as refresh_digests())
+                        for m2 in steps:
+                            st = state.get(r, "built")
+                            if m2 == "update_severable_digests":
+                                state[r] = "sev" if st in ("built", "sev") else st
+                                if st == "dig":
+                                    bad = (c, f"{m}(): severable digests refreshed after the manifest digest (the outer digest is stale)")
+                            elif m2 == "update_digest":
+                                if st == "built":
+                                    bad = (c, f"{m}(): manifest digest refreshed before the severable digests")
+                                state[r] = "dig"
+                        continue
                     if m == "update_severable_digests":
                         state[r] = "sev" if st in ("built", "sev") else st
                         if st == "dig":
@@ -197,7 +247,8 @@ def typestate(ctx):
     for o in pso:
         v = o.value
         refreshed = [e.args[0].args[0] for e in all_effects(o.effects) if isinstance(e, App) and e.op == "eff:call" and isinstance(e.args[0], App)
-                     and e.args[0].op == "meth:update_digest"]
+                     and e.args[0].op.startswith("meth:") and e.args[0].args
+                     and (e.args[0].op == "meth:update_digest" or "update_digest" in _summary(ctx, e.args[0].op[5:]))]
         if not (isinstance(v, App) and v.op == "meth:to_cbor" and refreshed and v.args[0] == refreshed[-1] and _is_envelope_ctor(v.args[0], ps, repo)
                 and v.args[0].args[-1] == P("data")):
             okp = False
